@@ -357,8 +357,10 @@ def r7_base_readers(c, facts):
 def run(c, facts):
     c.run(r7_base_readers, facts)
     import c13 as _c13
-    R8 = c.rule('C14.R8', 'WHOLE-TARGET: the target holds the new document and nothing of an older one: it is written at one site, with a truncating API (shared with C13.R1)')
+    R8 = c.rule('C14.R8', 'WHOLE-TARGET: the target holds the new document and nothing of an older one: it is written at one site, with a truncating API, on every successful run - a run that succeeds without writing leaves the document of another base in place (shared with C13.R1, C13.R14)')
     c.shared(R8, _c13.r1_sole_writer, 'C13.R1', facts)
+    c.shared(R8, _c13.r14_written_on_success, 'C13.R14', facts)
+    c.shared(R8, _c13.r15_write_verbatim, 'C13.R15', facts)
     c.run(r6_base_whole, facts)
     import c13
     c.run(lambda c: c13.r7_option_precedence(c, facts, rule='C14.R5'))
